@@ -1,7 +1,9 @@
 """Synthetic gA datasets written with the repository's own encoder (resources/data/dbd_gA/tools/mkocdfdata.py,
 imported, not copied). Used by C06/C09 (acceptance of the gA modes), C14 and C15."""
-import importlib.util, io, os, sys, contextlib
+import importlib.util, io, os, sys, contextlib, threading
 import vlib
+
+_CWD_LOCK = threading.Lock()  # the repository's encoder writes into the current directory: chdir is process-wide
 
 
 def encoder():
@@ -24,18 +26,22 @@ def write_dataset(dirpath, pdf_rows, emin, emax, qbb, isotope='Test', mode='g0')
         for i in range(n):
             for j in range(len(pdf_rows[i])):
                 f.write('%.16e %.16e %.16e\n' % (emin + i * step, emin + j * step, pdf_rows[i][j]))
-    cwd = os.getcwd()
-    os.chdir(dirpath)
-    try:
-        with contextlib.redirect_stderr(io.StringIO()):
-            app = enc.mkocdfdata(src, isotope, mode, qbb, False)
-            app.load_tab_pdf()
-            app.fill_tab_cdf()
-            app.fill_tab_ncdf()
-            app.save_tab_pdf()
-            app.save_tab_ncdf()
-    finally:
-        os.chdir(cwd)
+    with _CWD_LOCK:
+        cwd = os.getcwd()
+        os.chdir(dirpath)
+        try:
+            with contextlib.redirect_stderr(io.StringIO()):
+                app = enc.mkocdfdata(src, isotope, mode, qbb, False)
+                app.load_tab_pdf()
+                app.fill_tab_cdf()
+                app.fill_tab_ncdf()
+                app.save_tab_pdf()
+                app.save_tab_ncdf()
+        finally:
+            os.chdir(cwd)
+    for fn in ('tab_pdf.data', 'tab_ocdf.data'):
+        if not os.path.exists(os.path.join(dirpath, fn)):
+            raise SystemExit('HARNESS-ERROR: the encoder did not write %s into %s' % (fn, dirpath))
     return {'n': n, 'emin': app.e1min, 'emax': app.e1max, 'step': app.estep, 'qbb': qbb,
             'e1_cdf': [t[0] for t in app.tab_ncdf], 'e2_cdf': [t[1] for t in app.tab_ncdf]}
 
